@@ -17,7 +17,7 @@ var defaultDrop = map[string]bool{
 
 func isLogName(n string) bool {
 	switch n {
-	case "Logf", "Errorf", "Debugf", "Tracef", "Log", "Error", "Debug", "Trace":
+	case "Logf", "Errorf", "Debugf", "Tracef":
 		return true
 	}
 	return false
@@ -60,6 +60,10 @@ func (p *Proc) droppedFn(fn *types.Func) bool {
 	if defaultDrop[key] || p.ctx.dirs.Drop[key] {
 		return true
 	}
+	if fn.Pkg() != nil && fn.Pkg().Path() == modPath+"/logger" {
+		p.ctx.notes["logging/tracing calls are dropped (treated as effect-free and non-panicking)"] = true
+		return true
+	}
 	if isLogName(fn.Name()) {
 		// logging helpers of the repository and the logger interface
 		if fn.Pkg() != nil && strings.HasPrefix(fn.Pkg().Path(), modPath) {
@@ -67,7 +71,8 @@ func (p *Proc) droppedFn(fn *types.Func) bool {
 			return true
 		}
 	}
-	if fn.Pkg() != nil && fn.Pkg().Path() == modPath+"/server/metrics" {
+	if fn.Pkg() != nil && (fn.Pkg().Path() == modPath+"/server/metrics" || strings.Contains(fn.Pkg().Path(), "openmetrics")) {
+		p.ctx.notes["metrics calls are dropped (treated as effect-free and non-panicking)"] = true
 		return true
 	}
 	return false
@@ -105,6 +110,21 @@ func (p *Proc) evalCall(ec *ectx, call *ast.CallExpr) Val {
 				}
 				if fn, ok := obj.(*types.Func); ok {
 					return p.specFuncCall(ec, fn, nil, call)
+				}
+			}
+			// uninterpreted functions of lib specs: ufStr_x, ufInt_x, ufBool_x
+			for pfx, t := range map[string]types.Type{"ufStr_": types.Typ[types.String], "ufInt_": types.Typ[types.Int], "ufBool_": types.Typ[types.Bool]} {
+				if strings.HasPrefix(f.Name, pfx) {
+					var sorts []string
+					var ts []*Term
+					for _, a := range call.Args {
+						v := p.eval(ec, a)
+						sorts = append(sorts, string(v.T.Sort))
+						ts = append(ts, v.T)
+					}
+					rs := p.ctx.sortOf(t)
+					p.ctx.declare("uf:"+f.Name, fmt.Sprintf("(declare-fun %s (%s) %s)", f.Name, strings.Join(sorts, " "), rs))
+					return Val{T: App(f.Name, rs, ts...), Typ: t}
 				}
 			}
 			p.failf(call, "%s: unknown function %s in specification", ec.where, f.Name)
@@ -483,14 +503,66 @@ func (p *Proc) libFor(fn *types.Func) *Contract {
 	return nil
 }
 
+// siteAsserts checks `assert callee#k: expr` clauses of the current procedure at a call site.
+func (p *Proc) siteAsserts(ec *ectx, recv *Val, args []Val, call *ast.CallExpr) {
+	fr := p.cur()
+	if fr.contract == nil || ec.spec {
+		return
+	}
+	var site string
+	for _, cl := range fr.contract.Clauses {
+		if cl.Kind != "assert" {
+			continue
+		}
+		if site == "" {
+			site = fmt.Sprintf("%s#%d", calleeText(call), p.callOrdinal(call))
+		}
+		if cl.Param != site {
+			continue
+		}
+		cec := p.specEc(ec.st, call.Pos())
+		cec.where = cl.Where
+		cec.extra = map[string]Val{}
+		for i, a := range args {
+			cec.extra[fmt.Sprintf("arg%d", i)] = a
+		}
+		if recv != nil {
+			cec.extra["recv"] = *recv
+		}
+		g := p.eval(cec, cl.Expr)
+		p.assertFired[cl] = true
+		p.oblige(ec.st, "callsite.assert", fmt.Sprintf("%scallsite[%s].assert", fr.prefix, site), cl.Tags, g.T, cl.Where)
+		ec.st.assume(g.T)
+	}
+}
+
 func (p *Proc) callFunc(ec *ectx, fn *types.Func, recv *Val, args []Val, call *ast.CallExpr) Val {
 	sig := fn.Type().(*types.Signature)
+	if !p.inDevirt {
+		p.siteAsserts(ec, recv, args, call)
+	}
+	if funcKeyOf(fn) == "encoding/json.Unmarshal" && len(call.Args) == 2 {
+		// the decoder may write anything well typed into the object its second argument points to
+		pt := ec.info.TypeOf(call.Args[1])
+		if _, ok := pt.Underlying().(*types.Pointer); ok {
+			ptr := p.eval(ec, call.Args[1])
+			p.havocPointee(ec.st, ptr)
+			p.ctx.notes["trusted contract: encoding/json.Unmarshal (on return the destination object holds arbitrary well-typed values; err arbitrary)"] = true
+			rt := sig.Results().At(0).Type()
+			e := p.freshConst("jsonerr", p.ctx.sortOf(rt))
+			// errors returned by the decoder are never nil pointers wrapped in an interface
+			ec.st.assume(Or(Not(IsIfacePtr(e)), Neq(IPtr(e), IntLit(0))))
+			return Val{T: e, Typ: rt}
+		}
+	}
 	// interface method: devirtualise when a single implementation is declared
 	if recv != nil && isIface(recv.Typ) {
 		if nt := namedOf(recv.Typ); nt != nil && nt.Obj().Pkg() != nil {
 			ikey := nt.Obj().Pkg().Path() + "." + nt.Obj().Name()
 			if impl, ok := p.ctx.dirs.Devirt[ikey]; ok {
 				if m, r := p.devirtualize(ec, *recv, impl, fn.Name(), call); m != nil {
+					p.inDevirt = true
+					defer func() { p.inDevirt = false }()
 					return p.callFunc(ec, m, &r, args, call)
 				}
 			}
@@ -740,6 +812,14 @@ func (p *Proc) callInline(ec *ectx, fi *FuncInfo, fn *types.Func, sig *types.Sig
 					p.failf(call, "inlining variadic callee %s unsupported", fi.Name)
 				}
 				bind(nm, args[ai])
+				// a callback of the caller passed on to an inlined callee keeps its identity
+				if ai < len(call.Args) {
+					if v := p.cbVar(ec, call.Args[ai]); v != nil {
+						if o, ok := info.Defs[nm].(*types.Var); ok {
+							p.cbAlias[o] = v
+						}
+					}
+				}
 			}
 			ai++
 		}
@@ -869,4 +949,34 @@ func (p *Proc) execGo(st *State, x *ast.GoStmt) {
 	_ = p.heapGet(st, "G:$spawned", SInt)
 	p.heapSet(st, "G:$spawncount", Add(cnt, IntLit(1)))
 	p.heapSet(st, "G:$spawned", fv.T)
+}
+
+// havocPointee replaces the object a pointer refers to by arbitrary well-typed contents.
+func (p *Proc) havocPointee(st *State, ptr Val) {
+	elem, ok := deref(ptr.Typ)
+	if !ok {
+		return
+	}
+	if stt, ok := elem.Underlying().(*types.Struct); ok && !opaqueStruct(elem) {
+		for i := 0; i < stt.NumFields(); i++ {
+			f := stt.Field(i)
+			if isSyncType(f.Type()) || p.ctx.isImmutable(elem, f) {
+				continue
+			}
+			key := p.fieldHeapKey(elem, f)
+			h := p.fieldHeap(st, elem, f)
+			v := Val{T: p.freshConst("dec_"+f.Name(), p.ctx.sortOf(f.Type())), Typ: f.Type()}
+			p.wfAssume(st, v)
+			p.allocAssume(st, v)
+			p.heapSet(st, key, Store(h, ptr.T, v.T))
+		}
+		return
+	}
+	if opaqueStruct(elem) {
+		return
+	}
+	key := p.ptrHeapKey(elem)
+	v := Val{T: p.freshConst("dec", p.ctx.sortOf(elem)), Typ: elem}
+	p.wfAssume(st, v)
+	p.heapSet(st, key, Store(p.ptrHeap(st, elem), ptr.T, v.T))
 }
